@@ -7,6 +7,8 @@ from harness import clientlib as cl
 from harness import histgen
 from harness.callreg import invocations
 
+WIDE = 200000        # thorough tier: histories of the wide correspondence stream (widegen.py), judged by the model and the generic rule
+WIDE_QUICK = 2000
 PROP = 'C10'
 EXHAUSTIVE = False
 RULE = ('systematic: edition {2006,2013,2020} x use_server_timing x reply class {accepted, negative, truncated, wrong echo, other '
